@@ -1,5 +1,6 @@
 """C06 - secret sharing is textbook Shamir over GF(2^128+12451)."""
 from .. import query as Q
+from ..terms import PHI
 from .common import S, fidx, ok_variant
 from . import c01, c02
 
@@ -108,7 +109,7 @@ def run(ctx):
     eng, ret, st, fr = ctx.root(root)
     at = ctx.fn(root).loc
     # the decoded element is used (unwrapped, or converted into an Option and taken) only where its validity is established
-    un = [e for e in Q.calls(eng, None) if e.get("model") == "m_ct_unwrap" and e["frame"] == fr.key]
+    un = [e for e in Q.calls(eng, None) if e.get("model") == "m_ct_unwrap" and e["home"] == fr.key]
     okun = True
     for e in un:
         fs = Q.closure(eng, eng.facts_at(e["frame"], e["block"]))
@@ -160,26 +161,41 @@ def run(ctx):
     # ---- R6 the recovered bytes are the complete canonical encodings of the interpolated elements ------------------
     from .common import complete_repr
     okv = Q.variant(ret3, 0)
-    body = None
-    if okv is not None and okv[2] and okv[2][0].op == "fold":
-        init, app = okv[2][0].args[0], okv[2][0].args[1]
-        if init.op == "vec_new" and app.op == "append" and app.args[0].op == "acc":
-            el = app.args[1]
-            src = el.args[0] if el.op == "elem" else None
-            while src is not None and src.op in ("collected", "iter", "refv"):
-                src = src.args[0]
-            if src is not None and src.op == "mapped":
-                body = src.args[1]
-    if body is None and okv is not None and okv[2]:
-        # a byte vector filled by a loop appending one element encoding per iteration
-        pr = Q.parts_of(okv[2][0])
-        if len(pr) == 1 and pr[0][0] == "repeat" and len(pr[0][1]) == 1 and pr[0][1][0][0] == "part":
-            body = pr[0][1][0][1]
-    el6 = complete_repr(body) if body is not None else None
-    ctx.add("C06.R6", "star_sharks::share_ff::interpolate#output-is-complete-repr-of-each-element", el6 is not None and el6.op in ("fold", "phi"),
+
+    def element_bytes(v, depth=0):
+        """per-element byte terms of every alternative value of the output ([] for an empty output); None = unrecognised"""
+        if v.op == "vec_new":
+            return []
+        if v.op == "fold":
+            init, app = v.args[0], v.args[1]
+            if init.op == "vec_new" and app.op == "append" and app.args[0].op == "acc":
+                el = app.args[1]
+                src = el.args[0] if el.op == "elem" else None
+                while src is not None and src.op in ("collected", "iter", "refv"):
+                    src = src.args[0]
+                if src is not None and src.op == "mapped":
+                    return [src.args[1]]
+            return None
+        if v.op == "phi":
+            pr = Q.parts_of(v)
+            if len(pr) == 1 and pr[0][0] == "repeat" and len(pr[0][1]) == 1 and pr[0][1][0][0] == "part":
+                return [pr[0][1][0][1]]          # a loop appending one element encoding per iteration
+            if depth < 4 and not Q.is_loop_acc(v):
+                out = []
+                for w in (PHI.get(v.args[0]) or {}).values():
+                    r = element_bytes(w, depth + 1)
+                    if r is None:
+                        return None
+                    out += r
+                return out
+        return None
+    bodies = element_bytes(okv[2][0]) if okv is not None and okv[2] else None
+    els6 = [complete_repr(b_) for b_ in bodies] if bodies else []
+    ok6 = bool(bodies) and all(e_ is not None and (e_.op in ("fold", "phi")) for e_ in els6)
+    ctx.add("C06.R6", "star_sharks::share_ff::interpolate#output-is-complete-repr-of-each-element", ok6,
             "the secret bytes returned must be, element by element, the complete 24-byte canonical encoding of the interpolated "
-            "value (a truncated or padded partial copy alters elements >= 2^128); per-element bytes: %s" % S(body, 4),
-            ctx.fn("star_sharks::share_ff::interpolate").loc, sample=S(body, 3))
+            "value (a truncated or padded partial copy alters elements >= 2^128); per-element bytes: %s" % [S(b_, 4) for b_ in (bodies or [])],
+            ctx.fn("star_sharks::share_ff::interpolate").loc, sample=[S(b_, 3) for b_ in (bodies or [])])
     wroot = "star_sharks::share_ff::<impl std::convert::From<share_ff::Fp> for std::vec::Vec<u8>>::from"
     e6, r6, _, _ = ctx.root(wroot)
     src6 = complete_repr(r6) if r6 is not None else None
